@@ -7,6 +7,9 @@ pub mod semantic;
 
 pub(crate) mod util;
 
+#[cfg(pyxis_verif)]
+pub mod verif;
+
 pub fn build(in_dir: &Path, out_dir: &Path, pointer_size: usize) -> anyhow::Result<()> {
     let mut semantic_state = semantic::SemanticState::new(pointer_size);
 
@@ -15,6 +18,8 @@ pub fn build(in_dir: &Path, out_dir: &Path, pointer_size: usize) -> anyhow::Resu
     }
 
     let resolved_semantic_state = semantic_state.build()?;
+    #[cfg(pyxis_verif)]
+    let resolved_semantic_state = verif::Ordered(resolved_semantic_state);
     for (key, module) in resolved_semantic_state.modules() {
         backends::rust::write_module(Path::new(&out_dir), key, &resolved_semantic_state, module)?;
     }
